@@ -538,6 +538,47 @@ def run_case(rep, base, spec, jl, idx, record=True):
             "impl_traces": re.findall(r"^TRACE: loaded:(.*)$", err.decode("utf-8", "replace"), re.M)}
 
 
+def run_virtual_case(base, spec, jl, idx, rng_choice):
+    """`-e` / stdin root: there is no importing file, so only the -J directories are searched.
+    The chosen file is observed through its own std.thisFile."""
+    T = os.path.join(base, "v%d" % idx)
+    os.makedirs(T)
+    name, kind = rng_choice
+    try:
+        contents = build_tree(T, spec)
+        src = "(import %s).this" % vlib.jsonnet_str(name.replace(T_MARK, T))
+        cmd = [vlib.CLI_BIN]
+        for j in jl:
+            cmd += ["-J", j.replace(T_MARK, T)]
+        cmd += ["-e", src] if kind == "e" else ["-"]
+        try:
+            p = subprocess.run(cmd, cwd=os.path.join(T, spec["cwd"]), env=ENV,
+                               input=b"" if kind == "e" else src.encode(), stdout=subprocess.PIPE,
+                               stderr=subprocess.PIPE, timeout=60)
+            rc, out, err = p.returncode, p.stdout, p.stderr.decode("utf-8", "replace")
+        except subprocess.TimeoutExpired:
+            rc, out, err = None, b"", ""
+        orc = Oracle(T, spec, jl)
+        full = orc.find(None, name.replace(T_MARK, T))
+        exp = "none" if full is None else "some " + vlib.hx(full)
+        line = "imp find - %s %s" % (vlib.hx(name.replace(T_MARK, T)), " ".join(model_tokens(T, spec, contents, jl)))
+    finally:
+        remove_tree(T)
+    if rc == 0:
+        try:
+            got = "some " + vlib.hx(json.loads(out.decode("utf-8")))
+        except Exception:
+            got = "bad stdout"
+    elif rc == 1 and "not found in search path" in err:
+        got = "none"
+    elif rc == 1:
+        got = "other-error"      # found something that is not an importable node (directory, binary, cycle)
+    else:
+        got = "bad exit %r" % (rc,)
+    return {"T": T, "got": got, "exp": exp, "line": line, "stderr": err[-600:], "multi": orc.multi_candidates,
+            "replay": {"virtual": True, "spec": spec, "jl": jl, "choice": list(rng_choice)}}
+
+
 def norm(s, T):
     """Make answers independent of the scratch directory name (for keys / replay)."""
     return s
@@ -566,7 +607,7 @@ def run(rep):
     base = tempfile.mkdtemp(prefix="rsj-c13-", dir="/tmp")
     base = os.path.realpath(base)
     try:
-        ntrees = 110 if rep.tier == "quick" else 2500
+        ntrees = 200 if rep.tier == "quick" else 2500
         work = []
         for sp in CORPUS:
             for jl in [list(p) for p in itertools.permutations(sp["jset"])]:
@@ -578,6 +619,38 @@ def run(rep):
         results = []
         for i, (sp, jl) in enumerate(work):
             results.append(run_case(rep, base, sp, jl, i))
+        # virtual roots (-e / stdin): no importer directory
+        vres = []
+        seen = set()
+        for i, (sp, jl) in enumerate(work):
+            k = json.dumps(sp, sort_keys=True)
+            if k in seen:
+                continue
+            seen.add(k)
+            names = sorted({os.path.basename(l) for l, f in sp["files"].items() if f["kind"] == "node" and l != "w/root.jsonnet"})
+            if not names:
+                continue
+            nm = rep.rng.choice(names)
+            choice = (rep.rng.choice([nm, nm, "./" + nm, "sub/" + nm, "../w/" + nm, T_MARK + "/j1/" + nm]),
+                      rep.rng.choice(["e", "stdin"]))
+            vres.append(run_virtual_case(base, sp, jl, i, choice))
+        vmo = vlib.model([r["line"] for r in vres])
+        for r, m in zip(vres, vmo):
+            key = json.dumps(r["replay"], sort_keys=True)
+            rep.count(key, r["multi"])
+            rep.bump("virtual-root-" + r["got"].split(" ")[0])
+            if r["got"].startswith("bad"):
+                rep.violation("c13:" + key, "virtual root: " + r["got"] + " stderr: " + r["stderr"], r["replay"])
+            elif r["got"] == "other-error":
+                if r["exp"] == "none":
+                    rep.violation("c13:" + key, "virtual root: an import that resolves to nothing did not report "
+                                  "'not found': " + r["stderr"], r["replay"])
+            elif r["got"] != r["exp"]:
+                rep.violation("c13:" + key, "virtual root (-e / stdin): binary picked %s, reference resolution %s"
+                              % (r["got"], r["exp"]), r["replay"])
+            elif r["got"] != m:
+                rep.disagreement("c13:" + key, "virtual root: implementation and model differ",
+                                 dict(r["replay"], impl=r["got"], model=m))
         rep.extra["t_runs_s"] = round(__import__("time").time() - rep.t0, 1)
         mo = vlib.model([r["line"] for r in results])
         rep.extra["t_model_s"] = round(__import__("time").time() - rep.t0, 1)
@@ -628,6 +701,14 @@ def replay(record):
     class _R:
         pass
     base = os.path.realpath(tempfile.mkdtemp(prefix="rsj-c13-", dir="/tmp"))
+    if r.get("virtual"):
+        try:
+            res = run_virtual_case(base, r["spec"], r["jl"], 0, tuple(r["choice"]))
+        finally:
+            remove_tree(base)
+        m = vlib.model([res["line"]])[0]
+        print("impl  :", res["got"], "\noracle:", res["exp"], "\nmodel :", m, "\nstderr:", res["stderr"])
+        return 1 if res["got"] != res["exp"] or res["got"] != m else 0
     try:
         res = run_case(_R(), base, r["spec"], r["jl"], 0)
     finally:
